@@ -39,10 +39,13 @@ A schedule is a list of actions (`Act`): between any two atomic actions of the c
 socket thread may execute any number of complete operations (the property's quantifier — ONE
 arrival / power command racing ONE tick — is the special case of one `sock` action in the list).
 
-Outside the model: preemption INSIDE one of the atomic actions above (inside a Python statement,
-e.g. between the two loads of `self.fh` that finding F14 was about), OS scheduling and time; the
-`stop()`/`join()` of the clock thread at the last POWEROFF (the model allows more schedules than the
-real program: the socket thread is never blocked).  No Mathlib.
+Outside the model: preemption INSIDE one of the atomic actions above — inside a Python statement
+(e.g. between the two loads of `self.fh` that finding F14 was about), between the statements one
+action stands for (fwd-begin: `get_tx_freq` then `rf_muted`; fwd-read: `running`, `get_rx_freq`,
+`_hdr_ver`; the statements of `handle_data_msg`), and inside an operation of the socket thread (a
+socket operation is ONE action; the harness, too, runs it to completion while the clock thread is
+parked); OS scheduling and time; the `stop()`/`join()` of the clock thread at the last POWEROFF (the
+model allows more schedules than the real program: the socket thread is never blocked).  No Mathlib.
 -/
 import OsmoVerif.Model.World
 
